@@ -29,6 +29,9 @@
 #define _GNU_SOURCE // for getutline_r()
 #endif
 #include "snoopy.h"
+#ifdef SNOOPY_CONF_THREAD_SAFETY_ENABLED
+#include "tsrm.h"
+#endif
 
 #include <arpa/inet.h>
 #include <stdio.h>
@@ -59,9 +62,15 @@ int snoopy_util_utmp_findUtmpEntryByLine (char const * const ttyLine, struct utm
     searchEntry.ut_line[UT_LINESIZE-1] = '\0';
 
     // Do the search
+#ifdef SNOOPY_CONF_THREAD_SAFETY_ENABLED
+    snoopy_tsrm_forkUnsafeLibcCall_enter();
+#endif
     setutent();
     retVal = getutline_r(&searchEntry, resultEntryBuf, &resultEntry);
     endutent();
+#ifdef SNOOPY_CONF_THREAD_SAFETY_ENABLED
+    snoopy_tsrm_forkUnsafeLibcCall_leave();
+#endif
 
     // Failure/not found
     if (retVal != 0) {
